@@ -40,6 +40,31 @@ CLAIMED = {
    note="Trusted: Coq kernel, translator (table), extraction+driver, harness; String::from_utf8_lossy is modelled (Spec/Utf8.v) and compared with std on every case. Raw-name preservation is observed by the correspondence run (reader theorem pending).",
    technique="Coq proof (finite sweeps lifted by induction) over source-translated table + differential correspondence",
    design="8 (C19)"),
+ "C09": dict(
+   text="Machine-checked Coq theorems: a one-step 'streams' characterisation is proved for the source under any plan of "
+        "short reads, std::io::Take, the ZipCrypto reader (key state = function of the bytes consumed) and Crc32Reader, "
+        "composes (source->Take->ZipCrypto->Crc32 stack theorem), and is lifted by induction to every schedule of caller "
+        "buffer sizes including zero-length reads: a completed run returns exactly the denoted bytes, end of file is "
+        "sticky, two complete runs agree (chunk independence), and a Bad stream never completes.  Correspondence: "
+        "reader model vs crate under explicit short-read plans and caller schedules on all methods and encryptions "
+        "(uniform chunks, one short read at every byte position, random plans, refill patterns), short reads from the "
+        "first byte of the archive compared with the unfragmented run.",
+   note="Trusted: Coq kernel, extraction+driver, harness. The AES layer's streams lemma and the writer-side (short writes) theorems are not yet proved: AES and compressed entries are exercised by the correspondence/oracle only; decoder chunk independence is an assumption.",
+   technique="Coq proof (compositional stream denotations lifted by induction over schedules) + schedule-enumeration correspondence",
+   design="8 (C09)"),
+ "C15": dict(
+   text="Machine-checked Coq theorems over definitions regenerated from src/zipcrypto.rs: the CRC table, initial keys, "
+        "key update and stream byte equal the PKWARE cipher transcribed from APPNOTE with a bitwise CRC (table by "
+        "computation, stream byte by a complete 2^16 sweep, update by bit-level algebra); decrypt(encrypt(x)) = x with "
+        "identical key evolution for every key state and content (independent of the key schedule); the decrypting "
+        "reader streams the decryption whatever the chunking; no password on an encrypted entry is the "
+        "password-required error; a wrong password can only complete a read whose bytes hash to the declared CRC.  "
+        "Correspondence: entries written by the crate judged by an independent Python PKWARE implementation and "
+        "unzip -t and re-read; foreign entries from the reference builder and Info-ZIP incl. the DOS-time check "
+        "variant; all 256 check-byte values with a wrong password.",
+   note="Trusted: Coq kernel, translator, extraction+driver, harness, genzip.py, Info-ZIP. The writer-side theorem 'stored bytes = PKWARE ciphertext of header||data' awaits the writer model; it is judged per case by the independent decryptor.",
+   technique="Coq proof over source-translated cipher (sweeps + bit algebra + induction) + differential correspondence with independent producers",
+   design="8 (C15)"),
  "C18": dict(
    text="Machine-checked Coq theorems over definitions regenerated from src/types.rs on every run: "
         "unpack.pack = id on all 2^32 DOS words (separability + two complete 2^16 sweeps by vm_compute), "
